@@ -30,7 +30,7 @@
 From Coq Require Import List NArith ZArith Bool Arith.
 From Atlas Require Import Base.Bytes Diff.Schema Diff.DiffModel Diff.DiffSqlite
   Sqlite.PlanModel Sqlite.PlanProofs Sqlite.EngineModel Sqlite.InspectModel Sqlite.ConvergeDefs Sqlite.ConvergeStep
-  Sqlite.Converge Sqlite.ConvergeSupported.
+  Sqlite.Converge Sqlite.ConvergeSupported Sqlite.EngineRowsProofs Sqlite.ConvergeRows.
 Import ListNotations.
 
 (** ** the theorems *)
@@ -50,6 +50,19 @@ Theorem C01_converges_supported :
     exists p d', diff_and_plan nm (inspect d) B = Some p /\ exec_all d (plan_stmts p) = Ok d' /\ synced nm d' B.
 Proof. exact converges_supported. Qed.
 Print Assumptions C01_converges_supported.
+
+(** populated databases: [forget d] is [d] with every table emptied (same catalogue).  The plan is the
+    same; its execution ends in sync or stops with a row error (a NOT NULL / UNIQUE / foreign-key
+    violation by the rows, or ADD COLUMN NOT NULL without default on a table with rows) -- never with a
+    schema error *)
+Theorem C01_converges_rows :
+  forall (nm : str) (d : db) (B : xschema),
+    supported (forget d) B = true ->
+    exists p, diff_and_plan nm (inspect d) B = Some p /\
+      ((exists d', exec_all d (plan_stmts p) = Ok d' /\ synced nm d' B) \/
+       (exists er, exec_all d (plan_stmts p) = Err er /\ row_err er = true)).
+Proof. exact converges_rows. Qed.
+Print Assumptions C01_converges_rows.
 
 (** a second plan computed after a successful apply is empty, and running it changes nothing *)
 Theorem C01_second_plan_empty :
@@ -146,6 +159,18 @@ Proof. vm_compute. reflexivity. Qed.
 Example C01_ex_converged :
   converged (run empty_db ex_A) ex_A && converged (run (run empty_db ex_A) ex_B) ex_B
   && converged (run (run (run empty_db ex_A) ex_B) ex_C) ex_C = true.
+Proof. vm_compute. reflexivity. Qed.
+(** the rebuild of a table holding the row (id = 1, a = NULL) into a NOT NULL: stops with ENotNull;
+    holding (1, 'x'): succeeds and keeps the row *)
+Definition with_rows (d : db) (rows : list row) : db :=
+  mkDB (map (fun c => mkCT (ct_x c) (ct_uniques c) rows) (db_tables d)) (db_fk d) (db_tx d).
+Definition ex_AB : db := run (run empty_db ex_A) ex_B.
+Example C01_ex_rows :
+  (match apply_plan nm (with_rows ex_AB [(1%Z, [(n_id, VInt 1); (n_a, VNull); (n_b, VNull)])]) ex_C with
+   | Some (Err e) => row_err e | _ => false end)
+  && (match apply_plan nm (with_rows ex_AB [(1%Z, [(n_id, VInt 1); (n_a, VText [120]%N); (n_b, VNull)])]) ex_C with
+      | Some (Ok d') => converged d' ex_C && match db_tables d' with [c] => Nat.eqb (length (ct_rows c)) 1 | _ => false end
+      | _ => false end) = true.
 Proof. vm_compute. reflexivity. Qed.
 Example C01_ex_second_plan : synced nm (run empty_db ex_A) ex_A.
 Proof. vm_compute. reflexivity. Qed.
